@@ -13,7 +13,11 @@ from oracles import geom_o as GO
 from props._util import make_replay, rng_for
 
 LEVEL = "other"
-DEDUCTIVE = [{"module": "rnapolis.clashfinder", "sidecar": "contracts.clashfinder_c", "targets": ["find_clashes"]}]
+DEDUCTIVE = [{"module": "rnapolis.clashfinder", "sidecar": "contracts.clashfinder_c", "targets": ["find_clashes"]},
+             # the tool: main() on the real source, using find_clashes' contract at the call site (stage order: short z3 attempt,
+             # cvc5, then the usual z3 stages - the nested-table obligations are answered by cvc5 within seconds)
+             {"module": "rnapolis.clashfinder", "sidecar": "contracts.clashfinder_main_c", "targets": ["main"],
+              "opts": {"z3_probe_ms": 1500, "cvc5_probe_s": 20}}]
 TRUSTED = [
     "CPython 3.12",
     "scipy.spatial.KDTree(points).query_pairs(r): returns exactly the set {(i, j): 0 <= i < j < n, dist(p_i, p_j) <= r} over the "
@@ -25,6 +29,22 @@ TRUSTED = [
     "Enum: iterating AtomType yields its members in definition order; AtomType[name] raises KeyError unless name is a member name; "
     "member attributes (.value, .radius) are read from the real imported module",
     "bounded part only: numpy, csv module (tool-report check)",
+    # --- main() (contracts/clashfinder_main_c.py EXTERNALS) ---
+    "argparse: ArgumentParser() / add_argument(name, help=..[, action='store_true']) register destinations (positional string, "
+    "store_true flag = bool, other option = string or None); parse_args() exits with SystemExit or returns a namespace whose attributes "
+    "are the constants cli_<dest>() (functions of sys.argv, fixed during the call)",
+    "open(path[, 'w']) returns a text file object or raises OSError; `with` on it returns the object and swallows nothing",
+    "rnapolis.parser.read_3d_structure(f, 1): a Structure3D whose .residues is parsed(f.name), a function of the path (in_nres / in_res "
+    "uninterpreted); may raise ValueError; main's preconditions are stated about parsed(cli_input())",
+    "print(s): writes the line s (recorded as ghost last_printed, appended to the ghost list OUT by the ghost command at the statement); "
+    "f\"{x}\" of a Residue3D == res_str(x) (Residue3D.__repr__, pure function of the frozen object), of a float == float_str(x) "
+    "(both uninterpreted) [engine: ev_JoinedStr hands objects to the sidecar's Cls.__str__ and floats to builtins.format(x, '')]",
+    "sorted(dict): a permutation of the dict's insertion-ordered keys; sorted(set): a duplicate-free enumeration of exactly the members, "
+    "may raise TypeError (Atom.__lt__ over Optional fields); the ordering itself is NOT assumed (any order is covered)",
+    "read_metadata(path, cats) / metadata[cat][i][item]: opaque (meta_value uninterpreted; OSError / KeyError / IndexError possible); "
+    "os.path.basename / splitext: uninterpreted path_basename / path_root / path_ext; csv.writer(f).writerow(row): writes the row "
+    "(recorded as ghost last_row, appended to ghost ROWS by the ghost command at the statement)",
+    "callee contract used at the call site: find_clashes (proved above; its ghost lists GA/GP/KI/KJ are ghost results)",
 ]
 ASSUMPTIONS = [
     "A-real: floats are reals, decimal literals denote their exact decimal value; (bounded part: distances within 1e-6 of the radius sum are undecided)",
@@ -38,6 +58,22 @@ ASSUMPTIONS = [
     "takes the wrong radius",
     "pinned table: radii C 0.6, N 0.54, O 0.53, P 0.94 and MolProbity margin 0.5 (contracts/clashfinder_c.RADII, same as oracles/geom_o.RADII)",
     "spec vocabulary (not assumptions about the code): push/put/empty_* build ghost lists and maps as values",
+    # --- main() ---
+    "main precondition distinct_residues / stripped_names: find_clashes' two preconditions for the residues of the input file "
+    "(parsed(cli_input())) - obligations call[..]->find_clashes.requires.0/1 at the call site",
+    "main precondition distinct_atoms: Atom.__eq__ (dataclass, field-wise; uninterpreted atom_eq) holds for two atoms of the file only "
+    "at the same position, i.e. the file has no duplicated atom record. With distinct_residues this makes `==` on the residues / atoms of "
+    "the clash list object identity (obligation ghost.assert[clash-list] keys_by_identity), which is how the engine indexes dict keys and "
+    "set members that are object references; with a duplicated atom record the set in clashing_chains would merge two clashes",
+    "main precondition: with --ignore-occupancy every atom occupancy is None or >= 0 (then every occupancy sum is > 0; the tool's running "
+    "maximum starts from 0.0, so a pair whose sums are all negative would be reported with 0.0 - out of the PDB/mmCIF domain)",
+    "Residue3D.chain is modelled as a str field (every residue the parsers build has an auth or a label, so chain is never None; a None chain "
+    "would make sorted() of the chain pairs raise TypeError)",
+    "engine opt-ins of contracts/clashfinder_main_c.py: DICT_ORDER_INVARIANT (representation invariant of insertion-ordered dict variables "
+    "at loop heads), NESTED_DICT_ORDER (a dict stored as a value of a dict keeps an insertion-ordered key list), PACK_KEYS (composite keys "
+    "packed into one array index by an injective function)",
+    "pinned report format: the three line formats of the tool ('Clashes found in chain ..', '    Clashes found in residue ..', "
+    "'        Clashes found between atoms ..' and their two-key variants), same texts the bounded tool-report check parses",
 ]
 EXPLANATION = (
     "Under contract (deductive, pyvc on the real source): clashfinder.find_clashes, all five options as free symbolic booleans (the 32 "
@@ -53,8 +89,28 @@ EXPLANATION = (
     "module), ghost.assert[radii-are-the-table] (AtomType[name[0]].radius of the code == pinned table), safe.no_KeyError / "
     "no_IndexError (name[0] lookups, flat-list indexing), loop0/loop1 invariants (flat lists reference_residues / reference_atoms / "
     "coordinates == the selected atoms in structure order, none skipped). "
-    "Stays bounded: main() (argparse, file reading, printing of per-residue / per-chain maxima, CSV) - the aggregation loop is inline "
-    "in main() between I/O calls and is not reachable without hand-modelling that I/O; checked by the bounded tool-report run only."
+    "Also under contract: clashfinder.main, the WHOLE body (argparse -> open -> read_3d_structure -> find_clashes -> aggregation loop -> "
+    "report loops -> CSV loops), I/O through the small assumed externals listed in TRUSTED, find_clashes through its proved contract. "
+    "Maxima are stated existence-free: ghost maps MR (residue pair -> clash index) and MC (chain pair -> clash index) name the clash "
+    "attaining the maximum, LC names for every printed line a clash it is about, WC / WP / WA name a clash for every chain pair / listed "
+    "residue pair / stored atom triple of the nested table. Top-level clauses of main: "
+    "clash-list-is-find_clashes-of-the-input-file-under-the-command-line-options + every-clash-under-..-is-in-the-list + "
+    "atoms-considered-follow-nucleic-acid-only = the list the report is built from is find_clashes' result for the residues of the file "
+    "named on the command line with each --flag bound to ITS parameter (which clashes --ignore-autoclashes / --require-same-atom-name / "
+    "--ignore-occupancy drop, the 0.5 A of --enable-molprobity-mode, occupancy sum = occ'_t + occ'_u: the definition `clash`); "
+    "residue-pair-entry-is-a-clash-of-the-pair = every entry of max_occupancy_residues is the occupancy sum of clash MR[pair], a clash of "
+    "exactly this residue pair; residue-pair-entry-is-the-maximum = every residue pair with a clash has an entry and no clash of the pair "
+    "has a larger sum; chain-pair-entry-* = the same for max_occupancy_chains and chain pairs (the clause that fails for c9ec109's defect "
+    "and for an update on first sight only); every-printed-line-reports-a-clash-or-the-maximum-of-its-pair = every printed line is, for "
+    "some clash k (LC), either the chain line of k's chain pair with the sum of clash MC[pair], or the residue line of k's residue pair "
+    "with the sum of clash MR[pair], or the atom line of clash k with its own sum - nothing else is printed; every-csv-row-is-a-listed-clash "
+    "= every CSV data row carries the file stem, 'residue atom' of both atoms and the occupancy sum of one listed clash. Supporting: "
+    "loop0 invariants (the four table clauses + chain / residue / atom entries of clashing_chains all come from clashes), "
+    "ghost.assert[chain-pair-of-the-line / residue-pair-of-the-line / clash-of-the-line] (the key of each line has a clash and an entry in "
+    "the table of maxima), safe.no_KeyError (every table lookup of the report), call[..]->find_clashes.requires (data flow of the file). "
+    "NOT proved deductively (bounded tool-report check only): that every chain pair / residue pair / clash gets exactly ONE line and ONE "
+    "CSV row (no key skipped or repeated by the report loops; needs the dom<->order bijection of the inner dicts and the sorted() "
+    "permutation carried through three nested loops), the order of the lines, the CSV header and the metadata / classification columns."
 )
 OPTS = list(itertools.product([False, True], repeat=5))  # ignore_occ, ignore_auto, na_only, same_name, molprobity
 
